@@ -103,7 +103,9 @@ def en(ctx, enum_cls, x):
     """hand enum-typed parameters to the library as enum members in concrete replays (callers are expected to pass members);
     in symbolic runs the symbolic integer stands in for the member"""
     if ctx.symbolic:
-        return x
+        from symx import stubs
+        if not stubs.ENUM_FAITHFUL:
+            return x
     try:
         return enum_cls(x)
     except ValueError:
